@@ -154,6 +154,16 @@ CLAIMS = {
         "serving an honest calendar database with the chosen deviation -- and KSI_SignatureVerifier_verify must return the spec's result and FAIL code.",
    note="quick: one case per class (~6-9e3 verifications); thorough: six per class. Where the spec says a resource failure happened on the path, an error status instead of the verdict is accepted (the property allows 'NA, possibly with an error status').",
    technique="TLC model checking of the transcribed rule trees against the declarative anchor-binding property + replay of the exported verdicts into the real verifier with real PKI, publications files and a scripted extender"),
+ "C11": dict(level="model_checking", design_ref="DESIGN.md 4/C11",
+   text="Lifecycle.tla models signature objects in slots on one shared context: parse, clone, extend (to the calendar head, to a later time, with the publication "
+        "record held by another object) and add-root-level create objects whose content is fixed at creation; verify, serialize, free and unrelated context activity "
+        "(hashing, log-level changes) change no content (action property ContentFixed, checked by TLC exhaustively for short sequences and on every simulated "
+        "behaviour). TLC's simulator produces operation sequences with the spec's post-state after every step; each is stepped through the real library on one "
+        "long-lived context (scripted extender on the real TCP client, real PKI and publications file). After every step every live object must serialize to exactly "
+        "its creation bytes (the parsed bytes for parsed and cloned objects) and its verdict under a rotating policy / document / level must equal the verdict a fresh "
+        "context gives for the same bytes.",
+   note="quick: 160 sequences of 14 operations (about 2e3 steps, 8e3 verifications); thorough: 1600 sequences. Prepending a local aggregation chain and RFC3161 forms are not exercised.",
+   technique="TLC simulation of an object-lifecycle model (behaviours with post-states) replayed step by step into the real library with abstract-state comparison after every action; fresh-context oracle"),
 }
 for e in ENGINES:
     e["serves_properties"] = sorted(CLAIMS)
